@@ -85,9 +85,19 @@ def run_case(c):
     e = c.get("entry")
     try:
         if e and e["how"] == "setitem":
+            revive = [tuple(xy) for xy in e.get("revive", [])]
+            exc_of = dict((tuple(xy), rs) for xy, rs in m["exc"])
             machine = Machine(m["w"], m["h"], chip_resources=OrderedDict((r, q) for r, q in m["res"]),
-                              dead_chips=set(tuple(xy) for xy in m["dead"]))
+                              chip_resource_exceptions=OrderedDict(
+                                  (xy, OrderedDict((r, q) for r, q in exc_of[xy])) for xy in revive),
+                              dead_chips=set(tuple(xy) for xy in m["dead"]) | set(revive))
+            if e.get("copy_between"):
+                machine = machine.copy()
+            for xy in revive:
+                machine.dead_chips.discard(xy)
             for xy, rs in e["history"]:
+                if tuple(xy) in revive:
+                    continue                    # this chip keeps the exception it was built with
                 machine[tuple(xy)] = OrderedDict((r, q) for r, q in rs)
             a = allocate(vres, [], machine, cs, pl)
         elif e and e["how"] == "wrapper":
